@@ -381,3 +381,124 @@ func diffUsers(view map[string]*userView, truth map[string]memberTruth) string {
 	}
 	return ""
 }
+
+// ---------------------------------------------------------------------
+// C14, a client that comes back under the same id.
+//
+// A browser tab whose connection breaks reconnects and joins again with
+// the id it had; the server may still be taking the old connection out of
+// the group at that moment.  One or two watchers; client A joins; its
+// connection is cut (or closed, or it leaves); client B, with A's id,
+// connects and joins straight away, retrying while the server still says
+// that the id is in use.  Oracle (C14.view-differs): once activity has
+// stopped every watcher's list equals the group's membership.
+
+func genReconnectPlan(tp *simrt.Tape, seed uint64, tier string) any {
+	p := &confPlan{Profile: "reconnect"}
+	p.Groups = []confGroup{{Name: "g1", Users: stdUsers(), Wildcard: &confUser{Role: "present"}}}
+	nw := 1 + tp.Draw(2)
+	p.Clients = nw + 2
+	p.IDs = make([]string, p.Clients)
+	p.IDs[nw], p.IDs[nw+1] = "tab", "tab"
+	users := stdUsers()
+	for i := 0; i < nw; i++ {
+		p.Ops = append(p.Ops, confOp{Kind: "connect", C: i}, confOp{Kind: "join", C: i, Group: "g1", User: users[i].Name, Pass: users[i].Pass})
+	}
+	u := users[2+tp.Draw(len(users)-2)]
+	p.Ops = append(p.Ops, confOp{Kind: "connect", C: nw}, confOp{Kind: "join", C: nw, Group: "g1", User: u.Name, Pass: u.Pass}, confOp{Kind: "settle"})
+	// the second connection may already be open when the first one goes
+	early := tp.Chance(1, 2)
+	if early {
+		p.Ops = append(p.Ops, confOp{Kind: "connect", C: nw + 1})
+	}
+	switch tp.Draw(3) {
+	case 0:
+		p.Ops = append(p.Ops, confOp{Kind: "cut", C: nw})
+	case 1:
+		p.Ops = append(p.Ops, confOp{Kind: "close", C: nw})
+	case 2:
+		p.Ops = append(p.Ops, confOp{Kind: "leave", C: nw})
+	}
+	if d := []int{0, 0, 1, 5, 40}[tp.Draw(5)]; d > 0 {
+		p.Ops = append(p.Ops, confOp{Kind: "sleep", N: d})
+	}
+	if !early {
+		p.Ops = append(p.Ops, confOp{Kind: "connect", C: nw + 1})
+	}
+	p.Ops = append(p.Ops, confOp{Kind: "join-retry", C: nw + 1, Group: "g1", User: u.Name, Pass: u.Pass}, confOp{Kind: "settle"})
+	return p
+}
+
+func init() {
+	Register("C14", &Scenario{
+		Name:   "reconnect",
+		Weight: 1,
+		Owns:   []string{"C14"},
+		New:    func() any { return &confPlan{} },
+		Gen:    genReconnectPlan,
+		Cfg: func(tp *simrt.Tape, plan any) simrt.Config {
+			c := swarmCfg(tp, false)
+			c.PCTPoints = 1500
+			return c
+		},
+		Run:    runReconnect,
+		Shrink: shrinkConf,
+	})
+}
+
+func runReconnect(c *Ctx, plan any) {
+	p := plan.(*confPlan)
+	w := newConfWorld(c)
+	x := &confExec{w: w, p: p}
+	retries := 0
+	x.extra = func(op *confOp) bool {
+		if op.Kind != "join-retry" {
+			return false
+		}
+		sc := x.client(op.C)
+		if sc == nil || !sc.alive() {
+			return true
+		}
+		for try := 0; try < 8 && sc.alive(); try++ {
+			n := len(sc.joinResults)
+			sc.send(map[string]any{"type": "join", "kind": "join", "group": op.Group, "username": op.User, "password": op.Pass}, x.opIx)
+			simrt.WaitUntil("reconnect.joined", 5*time.Second, func() bool { return len(sc.joinResults) > n || !sc.alive() })
+			if len(sc.joinResults) == n || sc.joinResults[len(sc.joinResults)-1].Kind != "fail" {
+				break
+			}
+			retries++
+			simrt.Sleep(time.Duration(1+try*7)*time.Millisecond, "reconnect.retry")
+		}
+		return true
+	}
+	x.run()
+	if c.Run.Failed() {
+		return
+	}
+	if !w.settle(time.Minute) {
+		return
+	}
+	c.Count("reconnect.join_retries", int64(retries))
+	truth := groupTruth("g1")
+	checked := 0
+	for _, sc := range w.clients {
+		if !sc.alive() || sc.id == "tab" {
+			continue
+		}
+		if _, member := truth[sc.id]; !member {
+			continue
+		}
+		checked++
+		if d := diffUsers(sc.users, truth); d != "" {
+			c.Violation("C14.view-differs", "client %s (group g1), after another client's connection ended and a new connection joined under the same id: %s", sc.id, d)
+			return
+		}
+	}
+	_, back := truth["tab"]
+	if back {
+		c.Count("probe.rejoined_under_same_id", 1)
+	}
+	c.Nontrivial = checked > 0 && back
+	c.StateSig = uint64(len(w.handledL))<<8 ^ uint64(retries)<<2 ^ uint64(checked)
+	c.Sample("reconnect: watchers=%d retries=%d back=%v", checked, retries, back)
+}
